@@ -43,6 +43,7 @@ def bStep (f : File Byte) : Op Byte → Out Byte × File Byte
   | .list => (.lines (bDrain (f.data.length + 2) f []).1, (bDrain (f.data.length + 2) f []).2)
   | .drain => (.lines (bDrain (f.data.length + 2) f []).1, (bDrain (f.data.length + 2) f []).2)
   | .rollover => (.unit, f)
+  | .writelines ss => (.unit, ss.foldl File.write f)
 
 theorem SBytes.rollover_buf (s : SBytes) : s.rollover.buf = s.buf := by
   unfold SBytes.rollover
@@ -53,6 +54,12 @@ theorem SBytes.rollover_buf (s : SBytes) : s.rollover.buf = s.buf := by
 theorem SBytes.write_buf (s : SBytes) (b : List Byte) : (s.write b).buf = s.buf.write b := by
   unfold SBytes.write
   split <;> simp [SBytes.rollover_buf]
+
+theorem SBytes.writelines_buf (ss : List (List Byte)) (s : SBytes) :
+    (ss.foldl SBytes.write s).buf = ss.foldl File.write s.buf := by
+  induction ss generalizing s with
+  | nil => rfl
+  | cons b ss ih => simp only [List.foldl_cons]; rw [ih, SBytes.write_buf]
 
 theorem SBytes.len_eq (s : SBytes) : s.len.1 = s.buf.data.length ∧ s.len.2.buf = s.buf := by
   unfold SBytes.len
@@ -96,7 +103,7 @@ theorem SBytes.drain_eq (fuel : Nat) (s : SBytes) (acc : List (List Byte)) :
 theorem SBytes.step_eq (s : SBytes) (op : Op Byte) :
     (s.step op).1 = (bStep s.buf op).1 ∧ (s.step op).2.buf = (bStep s.buf op).2 := by
   cases op <;> simp only [SBytes.step, bStep, SBytes.write_buf, SBytes.readline_eq, SBytes.next_eq,
-    SBytes.getvalue_eq, SBytes.len_eq, SBytes.drain_eq, SBytes.rollover_buf, and_self]
+    SBytes.getvalue_eq, SBytes.len_eq, SBytes.drain_eq, SBytes.rollover_buf, SBytes.writelines_buf, and_self]
 
 def bRun (f : File Byte) : List (Op Byte) → List (Out Byte) × File Byte
   | [] => ([], f)
@@ -174,6 +181,7 @@ theorem bDrain_spec (fuel : Nat) (f : File Byte) (acc : List (List Byte)) (h : I
 theorem bStep_spec (f : File Byte) (op : Op Byte) (h : InRange f) (hok : okB f op = true) :
     bStep f op = Spec.step bytesSem f op := by
   cases op with
+  | writelines ss => simp only [bStep, Spec.step]; rw [File.foldl_write f ss h]
   | readlineN n =>
     cases n with
     | zero => simp [okB] at hok
@@ -220,6 +228,7 @@ theorem spec_inRange (f : File Byte) (op : Op Byte) (h : InRange f) (hok : okB f
   | list => simp [Spec.step, InRange] at *; omega
   | drain => simp [Spec.step, InRange] at *; omega
   | rollover => simpa [Spec.step] using h
+  | writelines ss => exact File.write_inRange f _ h
 
 theorem bRun_spec (f : File Byte) (ops : List (Op Byte)) (h : InRange f) (hv : validB f ops = true) :
     bRun f ops = Spec.run bytesSem f ops := by
